@@ -33,7 +33,7 @@ func TestVerifSmoke(t *testing.T) {
 	t.Logf("leader %s after %v", ln.ID, time.Since(t0))
 	for i := 0; i < 5; i++ {
 		ctx, cancel := context.WithTimeout(context.Background(), 5*time.Second)
-		resp, err := ln.Srv.api.Publish(ctx, &client.PublishRequest{Stream: "foo", Value: []byte("hello"), AckPolicy: client.AckPolicy_ALL})
+		resp, err := ln.Server().api.Publish(ctx, &client.PublishRequest{Stream: "foo", Value: []byte("hello"), AckPolicy: client.AckPolicy_ALL})
 		cancel()
 		if err != nil {
 			t.Fatal(err)
